@@ -584,6 +584,111 @@ func vsrvC16Probe(s *vsrvSession, rng *rand.Rand, d *vsrvC16Desc) {
 	d.Outcome = "wedged"
 }
 
+// vsrvC16SlowReaderBurst: a client that reads only when the script says so. While a flush of
+// the server is stuck in the full pipe it sends a burst of k SETTINGS frames (k around the
+// number of 9-octet SETTINGS ACKs that fill the server's 4 KiB write buffer), lets exactly that
+// one stuck write finish, stops reading again, and then sends more answer-earning frames than the
+// server may queue. The connection goroutine must still be alive to notice: with the client not
+// reading a single octet the server has to end the connection.
+func vsrvC16SlowReaderBurst(r *verifrt.R, c *verifrt.Case) {
+	rng := c.Rng
+	d := &vsrvC16Desc{Kind: "slow-reader-burst"}
+	d.Adv = 10
+	d.Cap = vsrvPick(rng, 1, 9, 64, 1000, 4096)
+	k := 450 + rng.IntN(14)
+	if rng.IntN(3) == 0 {
+		k = 1 + rng.IntN(2000)
+	}
+	pre := rng.IntN(4) // PINGs before the burst: their 17-octet ACKs shift the alignment
+	// what the write buffer (4 KiB) and the pipe can still absorb is written, not queued
+	flood := maxQueuedControlFrames + (4096+d.Cap)/17 + 100 + rng.IntN(50)
+	d.Notes = append(d.Notes, fmt.Sprintf("pipe capacity %d, %d PING then %d SETTINGS in the burst, then %d PING", d.Cap, pre, k, flood))
+	c.Describe(d)
+	var s *vsrvSession
+	ended, serveAlive := false, false
+	inner, outer := vsrvBubble(r.T, func() {
+		s = vsrvNewSession(vsrvConfig{Groups: vsrvGrpSurvive, MaxConcurrentStreams: d.Adv, S2CCap: d.Cap, ExpectErrors: true, Handler: vsrvC16Handler})
+		s.start()
+		s.cliWrite(append([]byte(h2ref.ClientPreface), h2ref.AppendSettings(nil)...))
+		s.settle()
+		s.mu.Lock()
+		stuck := s.blockedWriters > 0
+		s.mu.Unlock()
+		var burst []byte
+		for i := 0; i < pre; i++ {
+			burst = h2ref.AppendPing(burst, false, [8]byte{1, byte(i)})
+		}
+		for i := 0; i < k; i++ {
+			burst = h2ref.AppendSettings(burst)
+		}
+		s.mu.Lock()
+		s.cGarbage = true // the shadow does not follow this session; only the ending matters
+		s.mu.Unlock()
+		s.cliWrite(burst)
+		s.settle()
+		if stuck {
+			// read until the write that was stuck has returned, not an octet more
+			s.mu.Lock()
+			w0 := s.writesDone
+			s.mu.Unlock()
+			for i := 0; i < 200000; i++ {
+				s.mu.Lock()
+				done := s.writesDone > w0 || s.blockedWriters == 0 || s.srvClosed
+				s.mu.Unlock()
+				if done {
+					break
+				}
+				s.drain(1 + rng.IntN(8))
+				s.settle()
+			}
+			s.mu.Lock()
+			s.ev["slow_reader_bursts_with_a_stuck_write_released"]++
+			s.mu.Unlock()
+		}
+		// from here on the client reads nothing
+		var pings []byte
+		for i := 0; i < flood; i++ {
+			pings = h2ref.AppendPing(pings, false, [8]byte{2, byte(i), byte(i >> 8)})
+		}
+		for len(pings) > 0 {
+			n := min(len(pings), 17*(1+rng.IntN(500)))
+			s.cliWrite(pings[:n])
+			pings = pings[n:]
+			if rng.IntN(3) == 0 {
+				s.settle()
+			}
+		}
+		s.settle()
+		time.Sleep(time.Second)
+		s.settle()
+		ended = s.c16Closed()
+		serveAlive = !s.serveDone()
+		s.finish()
+	})
+	if s == nil {
+		c.Violation("harness-failure", "session did not start: %s %s", inner, outer)
+		return
+	}
+	if inner != "" {
+		c.Violation("harness-panic", "panic in the C16 script: %s", inner)
+	}
+	if outer != "" {
+		c.Violation("goroutines-left-behind:"+outer, "after the client closed the connection the bubble could not exit (some server goroutine is blocked forever): %s\n%s", outer, s.history(40))
+	}
+	if !ended {
+		s.mu.Lock()
+		s.viol(vsrvGrpSurvive, "not-ended-under-unread-control-flood", "a client that had stopped reading (pipe capacity %d) sent %d PING after a burst of %d SETTINGS frames, i.e. more frames owed an answer than maxQueuedControlFrames=%d: one virtual second later the server has not ended the connection (connection goroutine still running: %v, server writes blocked in the pipe: %d)", d.Cap, flood, k, maxQueuedControlFrames, serveAlive, s.blockedWriters)
+		s.mu.Unlock()
+		d.Outcome = "not ended"
+	} else {
+		d.Outcome = "ended under the flood"
+	}
+	s.report(r, c)
+	r.Event("kind_slow-reader-burst", 1)
+	r.Event("outcome_"+d.Outcome, 1)
+	r.EvalHash(true, uint64(d.Cap)<<40|uint64(k)<<20|uint64(pre)<<16|uint64(flood))
+}
+
 func vsrvC16Session(r *verifrt.R, c *verifrt.Case, kind string) {
 	rng := c.Rng
 	d := &vsrvC16Desc{Kind: kind}
@@ -760,6 +865,8 @@ func TestVerif_C16(t *testing.T) {
 	r.Require("probe_ping_answered", 40)
 	r.Require("server_goaway", 100)
 	r.Require("handler_starts", 300)
+	r.CasesParallel("slow-reader-burst", r.N(40, 400), 0, func(c *verifrt.Case) { vsrvC16SlowReaderBurst(r, c) })
+	r.Require("slow_reader_bursts_with_a_stuck_write_released", 10)
 	r.Require("floods_with_over_1000_queued_control_frames_sampled", 2)
 	r.Require("outcome_closed after input + timers", 100)
 	vsrvC16MaxMu.Lock()
